@@ -39,7 +39,9 @@ def bound(tier):
     return dict(values=V if q else "5 values to length 4, 4 values to length 6", max_length=4 if q else 6, patience=[1, 3] if q else [1, 5], periods=PERIODS,
                 criteria=["relative", "absolute", "variance"], tolerances=["0", "0.05", "1.5", "inf"], evaluators=["MetricEvaluator", "ObservableEvaluator"],
                 through_fit="sequences of length <= 3" if q else "sequences of length <= 4",
-                fine_scale=dict(values=FINE, tolerances=FINE_TOLS, max_length=3 if q else 4, patience=[1, 2]))
+                fine_scale=dict(values=FINE, tolerances=FINE_TOLS, max_length=3 if q else 4, patience=[1, 2]),
+                reuse="one evaluator + stopper over two runs (all pairs of sequences of length 2..3 over 4 values), with and without clear_history()",
+                scheduler="through-fit runs repeated with scheduler=StepLR for periods (1,1)")
 
 
 def plan(tier, seed):
@@ -69,6 +71,7 @@ def plan(tier, seed):
     for first in (0.0, 1.0, 1.04, 2.0):
         for kind in ("metric", "obs"):
             items.append(dict(layer="reuse", first=first, kind=kind))
+            items.append(dict(layer="reuse", first=first, kind=kind, clear=False))
     items.append(dict(layer="constructor"))
     for cs in tlc_sets(tier):
         items.append(dict(layer="tlc", **cs))
@@ -223,7 +226,8 @@ def run_impl(seq, sds, P_eval, P_stop, patience, crit, tol, epochs, kind, throug
     try:
         if through_fit:
             rec = CB.LambdaCallback(on_epoch_end=lambda s, e: eps.append(e))
-            st.fit(torch.tensor([[0.0], [1.0]], dtype=torch.double), epochs=epochs, pos_batch_size=2, lr=0.0, callbacks=[ev, es, rec])
+            extra = dict(scheduler=torch.optim.lr_scheduler.StepLR, scheduler_args=dict(step_size=1, gamma=0.5)) if through_fit == "sched" else {}
+            st.fit(torch.tensor([[0.0], [1.0]], dtype=torch.double), epochs=epochs, pos_batch_size=2, lr=0.0, callbacks=[ev, es, rec], **extra)
         else:
             for e in range(1, epochs + 1):
                 ev.on_epoch_end(st, e)
@@ -289,9 +293,36 @@ def check(acc, seq, patience, Pe, Ps, crit, tol, kind, through_fit, flagged, sto
     acc.outcome(sha([want, patience, Pe, Ps, crit]))
 
 
-def run_reuse(acc, first, kind):
-    """non-initial state: ONE evaluator and ONE stopper serve two consecutive runs with clear_history()
-    (and a reset of the stop flag) in between; the second run must be decided on its own values only"""
+def ref_continue(prev, new, patience, crit, tol):
+    """reference decision for a run that CONTINUES an evaluator's history: prev / new are (mean, variance) pairs,
+    one evaluation and one check per epoch, epochs of the new run numbered from 1"""
+    E = list(prev)
+    for e, pair in enumerate(new, start=1):
+        E.append(pair)
+        if len(E) >= patience + 1:
+            (m0, v0), (m1, _) = E[-1 - patience], E[-1]
+            d = m0 - m1
+            if crit == "absolute":
+                dev = abs(d)
+            elif crit == "relative":
+                if m0 == 0:
+                    if d == 0:
+                        return e, "unspecified"
+                    dev = INF
+                else:
+                    dev = abs(d / m0)
+            else:
+                dev = abs(d) / math.sqrt(v0)
+            if dev < tol:
+                return e, None
+    return None, None
+
+
+def run_reuse(acc, first, kind, clear=True):
+    """non-initial state: ONE evaluator and ONE stopper serve two consecutive runs (stop flag reset in between).
+    clear=True: clear_history() in between - the second run is decided on its own values only.
+    clear=False: the history simply continues (epoch numbers restart at 1, as with the default starting_epoch) -
+    the number of evaluations that exist and the look-back both count the evaluations of the first run."""
     CB = lib().callbacks
     Vr = [0.0, 1.0, 1.04, 2.0]
     flagged = set()
@@ -341,7 +372,8 @@ def run_reuse(acc, first, kind):
                                                 break
                                         got.append(stop_at)
                                         st.stop_training = False
-                                        ev.clear_history()
+                                        if clear:
+                                            ev.clear_history()
                                 except ZeroDivisionError:
                                     st.stop_training = False
                                     acc.count("tolerated_zero_division")
@@ -352,13 +384,18 @@ def run_reuse(acc, first, kind):
                                     w, fl = ref_stop_epoch(list(seq), [2 * x * x for x in sds], 1, 1, patience, crit, tol, len(seq))
                                     unspecified = unspecified or fl == "unspecified"
                                     want.append(w)
+                                if not clear:
+                                    used = A[:want[0]] if want[0] else A
+                                    w, fl = ref_continue([(m_, 2 * sds[i_] ** 2) for i_, m_ in enumerate(used)], [(m_, 2 * sds[i_] ** 2) for i_, m_ in enumerate(B)], patience, crit, tol)
+                                    unspecified = unspecified or fl == "unspecified"
+                                    want[1] = w
                                 if unspecified:
                                     continue
                                 if got != want:
-                                    sig = "earlystop:second-run-after-clear_history-decided-wrongly" if got[0] == want[0] else "earlystop:first-run-decided-wrongly"
+                                    sig = ("earlystop:second-run-after-clear_history-decided-wrongly" if clear else "earlystop:second-run-continuing-the-history-decided-wrongly") if got[0] == want[0] else "earlystop:first-run-decided-wrongly"
                                     if sig not in flagged:
                                         flagged.add(sig)
-                                        acc.viol(sig, dict(layer="reuse", A=list(A), B=list(B), patience=patience, criterion=crit, tolerance=tol, kind=kind), observed=got, expected=want)
+                                        acc.viol(sig, dict(layer="reuse", A=list(A), B=list(B), patience=patience, criterion=crit, tolerance=tol, kind=kind, clear=clear), observed=got, expected=want)
                                     else:
                                         acc.n_violations += 1
                                 else:
@@ -417,7 +454,7 @@ def run_item(item):
             run_tlc_item(acc, item)
         return acc
     if item.get("layer") == "reuse":
-        run_reuse(acc, item["first"], item["kind"])
+        run_reuse(acc, item["first"], item["kind"], clear=item.get("clear", True))
         return acc
     L, kind, vals = item["L"], item["kind"], item["vals"]
     flagged = set()
@@ -441,6 +478,9 @@ def run_item(item):
                             check(acc, seq, patience, Pe, Ps, crit, tol, kind, False, flagged)
                             if item["fit"] and (Pe, Ps) in ((1, 1), (2, 3), (1, 2)):
                                 check(acc, seq, patience, Pe, Ps, crit, tol, kind, True, flagged)
+                                if (Pe, Ps) == (1, 1):
+                                    # the same run with a learning-rate scheduler attached: a stop raised at an epoch end still ends the run
+                                    check(acc, seq, patience, Pe, Ps, crit, tol, kind, "sched", flagged)
                             if crit == "variance" and Pe == 1:
                                 check(acc, seq, patience, Pe, Ps, crit, tol, kind, False, flagged, stopper="VarianceBasedEarlyStopping")
                                 if Ps == 1:
@@ -454,7 +494,7 @@ def run_item(item):
 def replay(case):
     acc = Acc()
     if case.get("layer") == "reuse":
-        run_reuse(acc, case["A"][0], case["kind"])
+        run_reuse(acc, case["A"][0], case["kind"], clear=case.get("clear", True))
         return acc
     if case.get("layer") == "tlc":
         with contextlib.redirect_stdout(io.StringIO()):
